@@ -53,6 +53,6 @@ def sum_sample(node: Sum, lls: np.ndarray) -> np.ndarray:
     :return: The index of the sub-distribution to follow.
     """
     n_samples, n_features = lls.shape
-    gumbel = stats.gumbel_l.rvs(0.0, 1.0, size=(n_samples, n_features))
+    gumbel = stats.gumbel_r.rvs(0.0, 1.0, size=(n_samples, n_features))
     weighted_lls = lls + np.log(node.weights) + gumbel
     return np.argmax(weighted_lls, axis=1)
